@@ -38,6 +38,7 @@ type verifier struct {
 	boxTags       map[string][]string
 	knownClause   map[string]bool
 	tabs          *tables
+	typedSorts    map[string]bool
 	genFn         map[string]bool
 	curPkg        string // package path of the function being verified (affects Cursor mapping)
 }
@@ -68,6 +69,7 @@ func newVerifier(repo, specDir string) (*verifier, error) {
 		v.opaque("O_" + sanitize(strings.Replace(ts[i+1:], ".", "_", 1)))
 	}
 	sort.Strings(v.opaqueDecls)
+	v.typedSorts = map[string]bool{"S_store_InMemory": true}
 	v.knownClause = map[string]bool{}
 	var kf KnownFile
 	if loadJSON(filepath.Join(filepath.Dir(specDir), "known-findings.json"), &kf) == nil {
@@ -511,6 +513,70 @@ func (v *verifier) nonNilErrGlobal(g *ssa.Global) bool {
 	}
 	if ok && !bad {
 		v.sortCache[key] = SErr
+		return true
+	}
+	v.sortCache[key] = nil
+	return false
+}
+
+// emptySliceGlobal: a package-level slice stored to only in the initialiser, with make(T, 0).
+func (v *verifier) emptySliceGlobal(g *ssa.Global) bool {
+	key := "emptyslice|" + g.Pkg.Pkg.Path() + "." + g.Name()
+	if s, ok := v.sortCache[key]; ok {
+		return s != nil
+	}
+	ok, bad := false, false
+	var scan func(fn *ssa.Function)
+	scan = func(fn *ssa.Function) {
+		for _, b := range fn.Blocks {
+			for _, in := range b.Instrs {
+				st, isStore := in.(*ssa.Store)
+				if !isStore || st.Addr != ssa.Value(g) {
+					continue
+				}
+				if fn.Name() != "init" {
+					bad = true
+					continue
+				}
+				good := false
+				switch mv := st.Val.(type) {
+				case *ssa.MakeSlice:
+					if c, isC := mv.Len.(*ssa.Const); isC && c.Int64() == 0 {
+						good = true
+					}
+				case *ssa.Slice:
+					// make([]T, 0) with constant size compiles to new [0]T + slice
+					if al, isA := mv.X.(*ssa.Alloc); isA {
+						if pt, isP := al.Type().Underlying().(*types.Pointer); isP {
+							if at, isArr := pt.Elem().Underlying().(*types.Array); isArr && at.Len() == 0 {
+								good = true
+							}
+						}
+					}
+				}
+				if good {
+					ok = true
+				} else {
+					bad = true
+				}
+			}
+		}
+		for _, an := range fn.AnonFuncs {
+			scan(an)
+		}
+	}
+	for _, m := range g.Pkg.Members {
+		if fn, isFn := m.(*ssa.Function); isFn {
+			scan(fn)
+		}
+	}
+	for _, fn := range v.funcs {
+		if fn.Pkg == g.Pkg {
+			scan(fn)
+		}
+	}
+	if ok && !bad {
+		v.sortCache[key] = SSl
 		return true
 	}
 	v.sortCache[key] = nil
